@@ -73,6 +73,14 @@ def main():
                     elif ev["op"] == "new":
                         text = inp["variants"][(ev["obj"] + ev.get("variant", 0)) % len(inp["variants"])]
                         elements = re.findall(r"\{[^\}]+\}", text)
+                        if ev["ctor"] == "staged":
+                            first = MoleculeResolver.from_string(elements[0] + "." + elements[1], last_all_atom=False)
+                            _, g1 = first.resolve()
+                            r = MoleculeResolver.from_graph(".".join(elements[2:]), g1, last_all_atom=inp["all_atom"])
+                            objs[ev["obj"]] = [r, 1]
+                            rec["lib"] = libdigest()
+                            events.append(rec)
+                            continue
                         if ev["ctor"] == "from_string":
                             r = MoleculeResolver.from_string(text, last_all_atom=inp["all_atom"])
                         elif ev["ctor"] == "from_graph":
@@ -94,7 +102,7 @@ def main():
                                 rec["yields"].append([lv, digest(meta, mol)])
                         elif ev["op"] == "resolve_all":
                             meta, mol = r.resolve_all()
-                            lv = r.resolutions
+                            lv = inputs[ev["inp"]]["levels"]
                             rec["yields"].append([lv, digest(meta, mol)])
                         objs[ev["obj"]][1] = lv
             except Exception as exc:
